@@ -406,3 +406,19 @@ def f(self, other):
         return _sub(lhs=P.new(other), rhs=self)
     return NotImplemented
 """, ref_funcs={"f"}, ref_consts=set())
+same("""
+def _has(group):
+    for m in group:
+        if isinstance(m, N):
+            return True
+    return False
+def f(self, group):
+    if _has(group):
+        return self.a(group)
+    return self.b(group)
+""", """
+def f(self, group):
+    if any([isinstance(n, N) for n in group]):
+        return self.a(group)
+    return self.b(group)
+""", ref_funcs={"f"}, ref_consts=set())
